@@ -54,9 +54,18 @@ func IsError(t types.Type) bool {
 	return false
 }
 
-// Zero returns the zero value as a string, for a given type.
+// ZeroExpr returns an expression for the zero value of typ; typeStr is typ as printed in the generated file.
+func ZeroExpr(typ types.Type, typeStr string) string {
+	switch typ.Underlying().(type) {
+	case *types.Struct, *types.Array:
+		return "*new(" + typeStr + ")"
+	}
+	return Zero(typ)
+}
+
+// Zero returns the zero value as a string, for a given type (structs and arrays need ZeroExpr).
 func Zero(typ types.Type) string {
-	switch t := typ.(type) {
+	switch t := typ.Underlying().(type) {
 	case *types.Basic:
 		switch t.Kind() {
 		case types.String:
